@@ -8,7 +8,7 @@ import sys
 
 VERIF = os.path.dirname(os.path.dirname(os.path.abspath(__file__)))
 SEEDED = os.path.join(VERIF, "seeded")
-PROPS = [f"C{i:02d}" for i in range(1, 21)]
+PROPS = os.environ.get("HARMLESS_PROPS", "").split() or [f"C{i:02d}" for i in range(1, 21)]
 
 
 def sh(cmd, **kw):
